@@ -348,14 +348,22 @@ func ForProgram(t *rapid.T, cfg AsmConfig) (rc.Program, ForInfo) {
 			equPos[k] = equPos[k-1]
 		}
 	}
+	firstNested := len(equItems)
+	if rapid.IntRange(0, 2).Draw(t, "equnested") == 0 {
+		firstNested -= rapid.IntRange(1, 3).Draw(t, "nnested")
+		if firstNested < 0 {
+			firstNested = 0
+		}
+	}
 	budget := 40
 	seq := 0
 	for i := 0; i < nTop; i++ {
 		for k, e := range equItems {
 			if equPos[k] == i {
-				if k == len(equItems)-1 && rapid.IntRange(0, 2).Draw(t, "equnested") == 0 {
-					// the last definition (nothing else depends on it) goes into the body of a
-					// block that is written out once, at whatever depth one turns up
+				if k >= firstNested {
+					// the last definitions (in their order, so that chains still refer backwards in
+					// the text) go into the bodies of blocks that are written out once, at whatever
+					// depth one turns up: a later block's count may go through a chain of them
 					g.nestedEqus = append(g.nestedEqus, e)
 					continue
 				}
